@@ -1068,6 +1068,15 @@ func (ex *Exec) refine(t, f *astate, fr *aframe, cond ssa.Value) {
 	}
 	bo, ok := cond.(*ssa.BinOp)
 	if !ok {
+		// a boolean that is a source of its own (the result of a summarised predicate)
+		if cv := ex.val(t, t.frames[len(t.frames)-1], cond); cv.K == AInt && len(cv.Bits) == 1 && cv.Bits[0].Kind == BSrc && cv.Bits[0].More == "" && srcWidths[cv.Bits[0].Src] == 1 {
+			tv, fv := uint64(1), uint64(0)
+			if cv.Bits[0].Neg {
+				tv, fv = 0, 1
+			}
+			t.facts[cv.Bits[0].Src] = [2]uint64{tv, tv}
+			f.facts[cv.Bits[0].Src] = [2]uint64{fv, fv}
+		}
 		return
 	}
 	tf, ff := t.frames[len(t.frames)-1], f.frames[len(f.frames)-1]
